@@ -163,6 +163,15 @@ impl<'a> Interp<'a> {
                 if !failed {
                     let eq = if self.ci { d.msg.eq_ci(&self.model) } else { d.msg == self.model };
                     ensure!(eq, "C09 wrong-effect", "{}; bytes={} {}", self.model.diff(&d.msg, self.ci), hex_abbrev(&bytes), short(&self.ctx()));
+                    // "the EDNS data stay equal": also as read through the live object
+                    let pp = &mut self.pp;
+                    match catch(|| crate::view::walk_edns(pp)) {
+                        Err(pm) => fail!(format!("C09 edns-walk-panic {}", panic_sig(&pm)), "{}; bytes={} {}", pm, hex_abbrev(&bytes), short(&self.ctx())),
+                        Ok(got) => {
+                            let want = crate::view::expect_edns(&d, &bytes);
+                            ensure!(got == want, "C09 edns-data-changed", "EDNS options read through the object: {:?}, in the bytes: {:?}; {}", got, want, short(&self.ctx()));
+                        }
+                    }
                 }
             }
         }
@@ -610,7 +619,26 @@ impl<'a> Interp<'a> {
             5 => {
                 // insert (text or pre-built RR) into any section
                 let sec = if want_fail && has_q && src.chance(100) { 0 } else { src.below(4) };
-                if sec == 0 {
+                if sec == 0 && !has_q && src.chance(90) {
+                    // question given as a record text (what add_to_question of the C table does):
+                    // the question is the record's name, type and class
+                    let tc = rrtext::gen_valid(src, &TextOpts { max_wire: 120, ..TextOpts::default() });
+                    if self.model.to_wire_plain().len() + tc.rec.to_wire().len() > 8192 || tc.rec.rtype == T_TXT && tc.text.len() > 600 {
+                        return Ok(true);
+                    }
+                    self.trace.push(format!("insert_rr_from_string(question {:?})", tc.text.chars().take(100).collect::<String>()));
+                    let pp = &mut self.pp;
+                    let r = catch(|| pp.insert_rr_from_string(Section::Question, &tc.text).map_err(|e| e.to_string()));
+                    match r {
+                        Err(pm) => fail!(format!("{} insert-panic {}", id, panic_sig(&pm)), "{} {}", pm, short(&self.ctx())),
+                        Ok(Err(e)) => fail!(format!("{} insert-question-fails", id), "{:?} {}", e, short(&self.ctx())),
+                        Ok(Ok(())) => {
+                            self.model.qd.push(Question { name: tc.rec.owner.clone(), qtype: tc.rec.rtype, qclass: 1 });
+                            self.note_mutation(true);
+                            self.st.class("op:insert-question-from-record-text");
+                        }
+                    }
+                } else if sec == 0 {
                     // question: RR::new_question
                     let mut f = vec![];
                     let (text, name) = rrtext::gen_host(src, 200, &mut f, true);
@@ -987,7 +1015,6 @@ const ASSUMPTIONS: &[&str] = &[
     "the OPT pseudo-record is only deleted, never given a TTL/address/owner",
     "recompute() is called only when maybe_compressed is false or the bytes are pointer-free (documented use)",
     "on a deleted record's cursor only delete/set_raw_name/is_tombstone are called",
-    "questions are inserted with RR::new_question (as gen::query does), not with a full record text",
     "rename arguments are well-formed clean non-root names",
     "start packets have no name pointing into the 12 header bytes (the header setters would legitimately rewrite such names)",
 ];
@@ -1132,7 +1159,7 @@ pub fn check_c08(ctx: &Ctx, known: &KnownFindings) -> Report {
     let mut rep = check_ops(Which::C08, ctx, known, 300_000, 4_000_000, 8);
     rep.require(&[
         "start:compressed", "start:pointer-free", "start:empty", "start:query", "op:header-setter", "op:set_rr_ttl", "op:set_rr_ip", "op:set_raw_name-grow", "op:set_raw_name-shrink",
-        "op:set_raw_name-same-length", "op:set_raw_name-question", "op:delete", "op:delete-question", "op:delete-opt", "op:insert", "op:insert-question", "op:rename", "op:recompute", "op:iter-uncompress", "op:getters",
+        "op:set_raw_name-same-length", "op:set_raw_name-question", "op:delete", "op:delete-question", "op:delete-opt", "op:insert", "op:insert-question", "op:insert-question-from-record-text", "op:rename", "op:recompute", "op:iter-uncompress", "op:getters",
     ]);
     rep
 }
